@@ -694,6 +694,7 @@ pub fn run(ctx: &Ctx, findings: &Findings) -> PropReport {
                 max_len: 512,
                 timeout_s: 30,
                 malloc_limit_mb: 1024,
+                detect_leaks: true,
                 confirm: &|bytes: &[u8], obs: &mut Obs| {
                     if bytes.is_empty() {
                         return Ok(());
